@@ -165,6 +165,17 @@ func runGen(cfg *Cfg) {
 		if first != nil && len(first.File) == 1 {
 			indexLines(out, req.ProtoFile[len(req.ProtoFile)-1], first.File[0].GetContent())
 			nameLines(out, req.ProtoFile[len(req.ProtoFile)-1], first.File[0].GetContent())
+			depLines(out, req.ProtoFile[len(req.ProtoFile)-1], first.File[0].GetContent())
+		} else if first != nil {
+			// several files generated by one request: match them to their .proto by base name
+			for _, f := range first.File {
+				base := strings.TrimSuffix(filepath.Base(f.GetName()), ".pulsar.go")
+				for _, pf := range req.ProtoFile {
+					if strings.TrimSuffix(filepath.Base(pf.GetName()), ".proto") == base {
+						depLines(out, pf, f.GetContent())
+					}
+				}
+			}
 		}
 		if len(out.res.Samples) < 3 {
 			out.Sample("request " + rep.ID + " (" + rep.Corpus + "): " + fmt.Sprint(len(first.GetFile())) + " files")
@@ -796,4 +807,109 @@ func protogenUnique(n string) string {
 		return n + "_"
 	}
 	return n
+}
+
+var reGoTypesBlock = regexp.MustCompile(`(?s)var file_\w+_goTypes = \[\]interface\{\}\{\n(.*?)\n\}`)
+var reDepIdxsBlock = regexp.MustCompile(`(?s)var file_\w+_depIdxs = \[\]int32\{\n(.*?)\n\}`)
+var reGoTypeRow = regexp.MustCompile(`// (\d+): (\S+)\s*$`)
+var reDepRow = regexp.MustCompile(`^\s*(\d+),\s+//`)
+
+// depLines: ties the Lean model of the Go type table and the dependency index table (Pulsar.GenTables, theorems
+// C19_depIdx_points_at_declared_type …) to the `file_x_goTypes` / `file_x_depIdxs` variables actually emitted.
+// Everything sent to the model is read from the REQUEST's descriptor: enums and messages in flattened order,
+// the enum / message / map typed fields of every message in declaration order, the methods.
+func depLines(out *Out, fd *descriptorpb.FileDescriptorProto, src string) {
+	gb, db := reGoTypesBlock.FindStringSubmatch(src), reDepIdxsBlock.FindStringSubmatch(src)
+	if gb == nil || db == nil {
+		if len(fd.MessageType)+len(fd.EnumType) > 0 && strings.Contains(src, "_goTypes") {
+			out.Count("deptab_tables_not_found")
+		}
+		return
+	}
+	var gotTypes, gotDeps []string
+	for _, l := range strings.Split(gb[1], "\n") {
+		if m := reGoTypeRow.FindStringSubmatch(l); m != nil {
+			gotTypes = append(gotTypes, m[2])
+		}
+	}
+	for _, l := range strings.Split(db[1], "\n") {
+		if m := reDepRow.FindStringSubmatch(l); m != nil {
+			gotDeps = append(gotDeps, m[1])
+		}
+	}
+	if len(gotDeps) < 5 {
+		return
+	}
+	pkg := fd.GetPackage()
+	q := func(parent, n string) string {
+		if parent == "" {
+			if pkg == "" {
+				return n
+			}
+			return pkg + "." + n
+		}
+		return parent + "." + n
+	}
+	var enums, msgs, deps []string
+	for _, e := range fd.EnumType {
+		enums = append(enums, q("", e.GetName()))
+	}
+	type node struct {
+		m    *descriptorpb.DescriptorProto
+		full string
+	}
+	var all []node
+	for _, m := range fd.MessageType {
+		all = append(all, node{m, q("", m.GetName())})
+	}
+	var walk func(ms []*descriptorpb.DescriptorProto, parent string)
+	walk = func(ms []*descriptorpb.DescriptorProto, parent string) {
+		for _, m := range ms {
+			full := q(parent, m.GetName())
+			for _, e := range m.EnumType {
+				enums = append(enums, full+"."+e.GetName())
+			}
+			for _, c := range m.NestedType {
+				all = append(all, node{c, full + "." + c.GetName()})
+			}
+			walk(m.NestedType, full)
+		}
+	}
+	walk(fd.MessageType, "")
+	for _, n := range all {
+		msgs = append(msgs, n.full)
+		var ds []string
+		for _, f := range n.m.Field {
+			if tn := f.GetTypeName(); tn != "" {
+				ds = append(ds, strings.TrimPrefix(tn, "."))
+			}
+		}
+		deps = append(deps, strings.Join(ds, ","))
+	}
+	var methods []string
+	for _, sv := range fd.Service {
+		for _, m := range sv.Method {
+			methods = append(methods, strings.TrimPrefix(m.GetInputType(), ".")+">"+strings.TrimPrefix(m.GetOutputType(), "."))
+		}
+	}
+	ls := func(l []string) string {
+		if len(l) == 0 {
+			return "-"
+		}
+		return strings.Join(l, ",")
+	}
+	depTok := "-"
+	if len(deps) > 0 {
+		depTok = strings.Join(deps, ";")
+		if depTok == "" {
+			depTok = "-" // a single message without typed fields
+			if len(deps) > 1 {
+				depTok = strings.Repeat(";", len(deps)-1)
+			}
+		}
+	}
+	n := len(gotDeps)
+	out.Count("deptab_lines")
+	out.Line("C19,C12", "deptab "+ls(enums)+" "+ls(msgs)+" "+depTok+" "+ls(methods),
+		"ok "+ls(gotTypes)+" "+ls(gotDeps[:n-5])+" "+ls(gotDeps[n-5:]))
 }
